@@ -96,3 +96,34 @@ Proof.
   - rewrite (filter_all_true _ cat Hm). reflexivity.
   - rewrite (filter_all_false _ cat); [reflexivity |]. intros a. rewrite Hm. reflexivity.
 Qed.
+
+(* the same at the level of one statement (Action and NotAction side by side): only the SETS of patterns matter *)
+Lemma any_match_same_set ps qs : incl ps qs -> incl qs ps -> forall a, any_match ps a = any_match qs a.
+Proof. intros H1 H2. apply any_match_covers; apply covers_incl; assumption. Qed.
+
+Theorem stmt_expanded_same_sets cat acts acts' nots nots' :
+  incl acts acts' -> incl acts' acts ->
+  match nots, nots' with
+  | Some ns, Some ns' => incl ns ns' /\ incl ns' ns
+  | None, None => True
+  | _, _ => False
+  end ->
+  stmt_expanded cat acts nots = stmt_expanded cat acts' nots'.
+Proof.
+  intros Ha1 Ha2 Hn. unfold stmt_expanded. f_equal. apply filter_ext. intros a. unfold stmt_pred.
+  rewrite (any_match_same_set acts acts' Ha1 Ha2 a). f_equal.
+  destruct nots as [ns|], nots' as [ns'|]; try contradiction; [|reflexivity].
+  destruct Hn as [Hn1 Hn2]. rewrite (any_match_same_set ns ns' Hn1 Hn2 a). reflexivity.
+Qed.
+
+Theorem stmt_expanded_perm cat acts acts' ns ns' : Permutation acts acts' -> Permutation ns ns' ->
+  stmt_expanded cat acts (Some ns) = stmt_expanded cat acts' (Some ns') /\
+  stmt_expanded cat acts None = stmt_expanded cat acts' None.
+Proof.
+  intros Ha Hn.
+  assert (I : forall (l l' : list str), Permutation l l' -> incl l l' /\ incl l' l).
+  { intros l l' H. split; intros p Hp; [eapply Permutation_in; [exact H | exact Hp] |
+      eapply Permutation_in; [apply Permutation_sym; exact H | exact Hp]]. }
+  destruct (I _ _ Ha) as [A1 A2]. destruct (I _ _ Hn) as [N1 N2].
+  split; apply stmt_expanded_same_sets; try assumption; [split; assumption | exact Logic.I].
+Qed.
